@@ -55,6 +55,8 @@ def gen_case(rng):
     # the promptness oracle is a bound on simulated time: the "slow node" fault (clock jumping past
     # runnable threads) would stall the very threads whose promptness is judged
     case["strategy"].pop("p_jump", None)
+    if case["strategy"].get("novel"):
+        case["strategy"]["novel_sleep"] = False
     case["sched_seed"] = rng.randrange(1 << 31)
     return case
 
